@@ -54,6 +54,10 @@ class C06(PureCheck):
             for t in ([], [97], [98, 97]):
                 yield {"op": "add", "x": F(x), "y": S(t)}
                 yield {"op": "add", "x": S(t), "y": F(x)}
+                yield {"op": "add", "x": F(x), "y": S(t), "aug": 1}      # alias = x; alias += "..."
+        for x in small:
+            for y in small[::3]:
+                yield {"op": "add", "x": F(x), "y": F(y), "aug": 1}
         seps = [l for l in L2 if len(l) <= 1 or vlen(l) <= 1][:40]
         items_pool = [F(l) for l in small[:30]] + [S([]), S([97]), S([98, 98])]
         nj = 4000 if tier == "quick" else 60000
